@@ -136,3 +136,28 @@ def atom_of(expr_source):
 
 def holds(facts, expr_source):
     return atom_of(expr_source) <= facts
+
+
+def guards_of(node, stop=None):
+    """[(test expression, polarity)] of the enclosing if / else branches and of earlier guard-and-exit statements."""
+    out = []
+    child = node
+    p = getattr(node, '_parent', None)
+    while p is not None:
+        if isinstance(p, ast.If):
+            if child in p.body:
+                out.append((p.test, True))
+            elif child in p.orelse:
+                out.append((p.test, False))
+        for field in ('body', 'orelse', 'finalbody'):
+            block = getattr(p, field, None)
+            if isinstance(block, list) and any(b is child for b in block):
+                i = [b is child for b in block].index(True)
+                for g in block[:i]:
+                    if isinstance(g, ast.If) and not g.orelse and g.body and isinstance(g.body[-1], _TERMINATORS):
+                        out.append((g.test, False))
+        if p is stop or isinstance(p, (ast.FunctionDef, ast.AsyncFunctionDef, ast.Lambda)):
+            break
+        child = p
+        p = getattr(p, '_parent', None)
+    return out
